@@ -86,7 +86,10 @@ func genApply(c *Config, r *rand.Rand) {
 	rev := 0
 	mk := func(client string) Action {
 		rev++
-		kind := pick(r, "proc-rev", "proc-rev", "proc-rev", "conn-set", "conn-set", "name", "dlq-set", "add-proc", "del-proc", "noop")
+		kind := pick(r, "proc-rev", "proc-rev", "proc-rev", "procs-rev2", "procs-rev2", "conn-set", "conn-set", "name", "dlq-set", "add-proc", "del-proc", "noop")
+		if kind == "procs-rev2" && len(ps) < 2 {
+			kind = "proc-rev"
+		}
 		a := Action{Client: client, Op: "apply", Arg: kind, N: rev, When: pick(r, "acked", "emitted", "written", "step", "now")}
 		note := fmt.Sprintf("at=%d", r.IntN(total+2))
 		switch kind {
@@ -94,6 +97,17 @@ func genApply(c *Config, r *rand.Rand) {
 			note += " target=" + ps[r.IntN(len(ps))].ID
 			if r.IntN(6) == 0 {
 				note += " openfail"
+			}
+		case "procs-rev2":
+			// two processors in one apply; the new settings of one of them may fail to open
+			i := r.IntN(len(ps))
+			j := (i + 1 + r.IntN(len(ps)-1)) % len(ps)
+			note += " target=" + ps[i].ID + " target2=" + ps[j].ID
+			switch r.IntN(3) {
+			case 0:
+				note += " openfail"
+			case 1:
+				note += " openfail2"
 			}
 		case "conn-set":
 			note += " target=" + conns[r.IntN(len(conns))]
@@ -234,6 +248,7 @@ type apCall struct {
 type apState struct {
 	inFlight     map[string]*apCall // client -> running apply call
 	planning     map[string]bool    // client -> plan call in flight
+	liveRev      map[string]string  // processor -> settings revision the running pipeline must be using (nil = unknown)
 	statusEvents int
 }
 
@@ -369,6 +384,13 @@ func noteVal(note, key string) string {
 // mutateCfg applies one change kind to a configuration; restart says whether the change
 // needs the drain-and-restart path on a running pipeline.
 func mutateCfg(base pconfig.Pipeline, kind, target string, rev int, openFail bool) (out pconfig.Pipeline, restart bool) {
+	if kind == "procs-rev2" {
+		// target is "a,b[,fail2]": both processors get new settings in one plan
+		parts := strings.Split(target, ",")
+		out, _ = mutateCfg(base, "proc-rev", parts[0], rev, openFail)
+		out, _ = mutateCfg(out, "proc-rev", parts[1], rev, len(parts) > 2)
+		return out, false
+	}
 	out = cloneCfg(base)
 	revs := fmt.Sprintf("%d", rev)
 	setProc := func(ps []pconfig.Processor) bool {
@@ -494,6 +516,7 @@ func (s *Sim) applyOnce(client string, kind, target string, rev int, allow, open
 		}
 	}
 	o.ap.inFlight[client] = call
+	o.ap.liveRev = nil
 	o.ap.markOverlap()
 	if o.ap.busyOthers(client) {
 		call.overlapped = true
@@ -517,8 +540,14 @@ func (s *Sim) applyOnce(client string, kind, target string, rev int, allow, open
 
 func (s *Sim) apply(client string, a Action) {
 	target := noteVal(a.Note, "target")
+	if a.Arg == "procs-rev2" {
+		target += "," + noteVal(a.Note, "target2")
+		if strings.Contains(a.Note, "openfail2") {
+			target += ",fail2"
+		}
+	}
 	allow := !strings.Contains(a.Note, "deny")
-	s.applyOnce(client, a.Arg, target, a.N, allow, strings.Contains(a.Note, "openfail"), strings.Contains(a.Note, "stale"))
+	s.applyOnce(client, a.Arg, target, a.N, allow, strings.Contains(a.Note+" ", "openfail "), strings.Contains(a.Note, "stale"))
 }
 
 // onApplyResult: C16's oracles over one finished ApplyPlanLive call.
@@ -566,10 +595,28 @@ func (o *Oracles) onApplyResult(w *World, st *Stack, c *apCall, planStable bool,
 		return
 	}
 	if c.overlapped {
+		o.ap.liveRev = nil
 		return // another apply may have changed the configuration since: nothing more can be attributed
 	}
 	cur, xerr := st.provisioner().Export(context.Background(), PipelineID)
 	memoryTrusted := err == nil || c.dbFaults <= 1 // (a roll-back whose own store writes fail cannot restore the in-memory view)
+	// from now on (until the next apply) every record is processed with the configuration that
+	// is exported: after a success the new one, after a refused or failed apply the old one
+	if xerr == nil && c.dbFaults == 0 {
+		exp := map[string]string{}
+		note := func(ps []pconfig.Processor) {
+			for _, p := range ps {
+				exp[p.ID] = p.Settings["rev"]
+			}
+		}
+		note(cur.Processors)
+		for _, cn := range cur.Connectors {
+			note(cn.Processors)
+		}
+		o.ap.liveRev = exp
+	} else {
+		o.ap.liveRev = nil
+	}
 	if xerr != nil && memoryTrusted {
 		w.violate("C16", "export-failed-after-apply", fmt.Sprintf("after apply %q the pipeline cannot be exported: %s", c.kind, firstLine(xerr.Error())))
 		return
